@@ -1,7 +1,7 @@
 //! C16 — search never panics on any request (claimed level: partial).
 //!
 //! Finder (implementation alone): every request runs in its own thread under `catch_unwind`
-//! with a 5 s watchdog, debug assertions on; outcome classes ok | error | panic | hang;
+//! with a 30 s watchdog, debug assertions on; outcome classes ok | error | panic | hang;
 //! panic/hang ⇒ `s.fail(sig, …)` with a signature derived from the panic site (file +
 //! message class, never the line number) and, for the two known sites, the input class.
 //! Correspondence (model = `Drv/C16`): cursor decode ok/error (+ decoded fields of real
@@ -29,7 +29,8 @@ mod gen;
 pub struct C16;
 pub static P: C16 = C16;
 
-const WATCHDOG: Duration = Duration::from_secs(5);
+// generous: the machine may be heavily loaded; a request on these tiny indexes normally answers in milliseconds
+const WATCHDOG: Duration = Duration::from_secs(30);
 
 // ---------------------------------------------------------------- outcome of one request
 
@@ -786,7 +787,7 @@ impl Prop for C16 {
     "C16"
   }
   fn rule(&self) -> &'static str {
-    "case = random small index (text/keyword/numeric/nested schema, 0-3 commits, deletions, in-memory or filesystem) + 8-12 requests of one stream: structured random requests (all query node types, filters, sorts, 20 aggregation shapes incl. pipelines, highlight, collapse, suggest, rescore, fuzzy, huge numbers, regex/wildcard metacharacters, deep trees, scripts), tree- and character-level mutations of such requests (multi-byte characters, extreme numbers, truncation, deep nesting), cursor strings (real next_cursor, edited, random hex, odd lengths, non-ASCII at even/odd offsets) on score and field sorts, script_score scripts from an expression grammar plus malformed variants, minimum_should_match specs, and planner-class queries with repeated terms; every request runs in its own thread under catch_unwind with a 5 s watchdog, debug assertions on. A request is non-trivial when it deserialises and reaches IndexReader::search (distinct by index+request JSON). Exploration, not proof: the blanket claim rests on this stream."
+    "case = random small index (text/keyword/numeric/nested schema, 0-3 commits, deletions, in-memory or filesystem) + 8-12 requests of one stream: structured random requests (all query node types, filters, sorts, 20 aggregation shapes incl. pipelines, highlight, collapse, suggest, rescore, fuzzy, huge numbers, regex/wildcard metacharacters, deep trees, scripts), tree- and character-level mutations of such requests (multi-byte characters, extreme numbers, truncation, deep nesting), cursor strings (real next_cursor, edited, random hex, odd lengths, non-ASCII at even/odd offsets) on score and field sorts, script_score scripts from an expression grammar plus malformed variants, minimum_should_match specs, and planner-class queries with repeated terms; every request runs in its own thread under catch_unwind with a 30 s watchdog, debug assertions on. A request is non-trivial when it deserialises and reaches IndexReader::search (distinct by index+request JSON). Exploration, not proof: the blanket claim rests on this stream."
   }
   fn count(&self, tier: Tier) -> usize {
     tier.pick(900, 24_000)
